@@ -148,6 +148,8 @@ class Faults(Suite):
                     continue
                 for forced in ((False, True) if fault == 'raise_midway' else (rng.random() < 0.5,)):
                     out.append(dict(kind=kind, forced=forced, fault=fault))
+                    if kind == 'dir' and fault in ('raise', 'raise_midway'):
+                        out.append(dict(kind=kind, forced=forced, fault=fault, leftover='error'))     # a second failure
         return out
 
     def run_impl(self, case):
@@ -373,6 +375,10 @@ def plant_leftovers(t, kind, left):
     if left in ('old', 'both'):
         (base / f'{key}_old').mkdir()
         (base / f'{key}_old' / 'stale.txt').write_text('stale')
+    if left == 'error':
+        # the work directory of an earlier failed attempt, set aside with what that attempt had written
+        (base / f'{key}_error').mkdir()
+        (base / f'{key}_error' / 'a.txt').write_text('from the first failure')
 
 
 class Traces(Suite):
@@ -462,9 +468,92 @@ class Traces(Suite):
         return d
 
 
+RESUMABLE_SRC = '''
+from taskchain import Task
+from taskchain.data import ContinuesData
+
+class Steps(Task):              # one step per call of run; the result is finished with the third step
+    class Meta:
+        task_group = "c05"
+    def run(self) -> ContinuesData:
+        d = self.get_data_object()
+        done = sorted(p.name for p in d.dir.iterdir())
+        (d.dir / f"step{len(done) + 1}").write_text("x")
+        if len(done) + 1 >= 3:
+            d.finished()
+        return d
+'''
+
+
+class ResumableSteps(Suite):
+    """a resumable (ContinuesData) task that needs several calls of run before it calls finished(): between the calls
+    the task object that ran, a new chain and a new process all agree that there is no result yet (has_data False, the
+    work directory with the steps done so far is kept), and after the last step all agree that there is one.
+    Runtime check only."""
+    name = 'resumable_steps'
+    model = ''
+
+    def gen(self, rng, tier):
+        return [dict(ask=a) for a in ('same_object', 'new_chain', 'new_process')]
+
+    def run_impl(self, case):
+        tmp = tempfile.mkdtemp(prefix='tcverif-c05r-')
+        old = os.getcwd()
+        try:
+            os.chdir(tmp)
+            name = 'tcv_dyn_c05r'
+            m = types.ModuleType(name)
+            sys.modules[name] = m
+            exec(compile(RESUMABLE_SRC, name, 'exec'), m.__dict__)
+            m.Steps.__module__ = name
+
+            def chain():
+                from taskchain import Config
+                return Config(Path('data'), name='cfg', data={'tasks': [m.Steps]}).chain()
+
+            def scenario():
+                out = []
+                for step in (1, 2, 3):
+                    t = chain()['c05:steps']
+                    v = t.value
+                    if case['ask'] == 'same_object':
+                        has = bool(t.has_data)
+                    elif case['ask'] == 'new_chain':
+                        has = bool(chain()['c05:steps'].has_data)
+                    else:
+                        has = in_child(lambda: dict(has=bool(chain()['c05:steps'].has_data))).get('has')
+                    out.append(dict(step=step, has=has, listing=sorted(str(p.relative_to('data')) for p in Path('data').rglob('*'))))
+                return dict(steps=out)
+            return in_child(scenario)
+        finally:
+            os.chdir(old)
+            sys.modules.pop('tcv_dyn_c05r', None)
+            shutil.rmtree(tmp, ignore_errors=True)
+
+    def oracle(self, case, obs):
+        if 'unexpected_exception' in obs:
+            return f'unexpected exception {obs["unexpected_exception"]}: {obs["text"]}'
+        if 'child_error' in obs:
+            return f'{case}: {obs["child_error"]}'
+        for s in obs['steps']:
+            want = s['step'] == 3
+            if s['has'] != want:
+                return (f'{case}: after step {s["step"]} of 3 has_data is {s["has"]} ({case["ask"].replace("_", " ")}); the result is '
+                        f'{"finished" if want else "not finished"}: {s["listing"]}')
+            if not want and not any(p.endswith(f'_tmp/step{s["step"]}') for p in s['listing']):
+                return f'{case}: after step {s["step"]} the work directory does not hold the steps done so far: {s["listing"]}'
+        return None
+
+    def nontrivial(self, case, obs):
+        return True
+
+    def key(self, case):
+        return repr(case)
+
+
 class C05(Prop):
     pid = 'C05'
-    suites = [Traces(), Faults()]
+    suites = [Traces(), Faults(), ResumableSteps()]
     assumptions = ['rename/replace within one directory is atomic and a file is partial until it is closed (the operating system, '
                    'described by Crash.apply)',
                    'the theorems are about the operation sequences of Crash.trace_of; publication_traces compares them with the '
